@@ -239,3 +239,50 @@ theorem marker_isSome (fmax : α) (andMode : Bool) (ths : List α) (vals : List 
   obtain ⟨r, hr⟩ := foldCmp_isSome fmax andMode ths vals 0 andMode (by omega)
   exact ⟨!r, by simp [marker, hr]⟩
 end TV.Split
+
+namespace TV.Split
+variable {α : Type} [LE α] [DecidableLE α]
+
+/-- thresholds beyond the number of tested features are never read -/
+theorem foldCmp_extra (fmax : α) (andMode : Bool) (ths extra : List α) : ∀ (vals : List (Option α)) (idx : Nat) (acc : Bool),
+    idx + vals.length ≤ ths.length →
+    foldCmp fmax andMode (ths ++ extra) idx vals acc = foldCmp fmax andMode ths idx vals acc := by
+  intro vals
+  induction vals with
+  | nil => intro idx acc _; rfl
+  | cons x vs ih =>
+    intro idx acc hlen
+    simp only [List.length_cons] at hlen
+    cases x with
+    | none => simpa [foldCmp] using ih (idx + 1) acc (by omega)
+    | some v =>
+      have hidx : idx < ths.length := by omega
+      have hidx' : idx < (ths ++ extra).length := by simp; omega
+      simp only [foldCmp, threshold_lt fmax ths idx hidx, threshold_lt fmax (ths ++ extra) idx hidx',
+        List.getElem_append_left hidx]
+      exact ih (idx + 1) _ (by omega)
+
+/-- fewer thresholds than tested features: the loop raises `IndexError` as soon as the feature at position
+`len(thresholds_max)` has a non-NaN value (the guard is `len(thresholds_max) >= index`) -/
+theorem foldCmp_index_error (fmax : α) (andMode : Bool) (ths : List α) : ∀ (vals : List (Option α)) (idx : Nat) (acc : Bool) (v : α),
+    idx ≤ ths.length → vals[ths.length - idx]? = some (some v) →
+    foldCmp fmax andMode ths idx vals acc = none := by
+  intro vals
+  induction vals with
+  | nil => intro idx acc v _ h; simp at h
+  | cons x vs ih =>
+    intro idx acc v hle h
+    by_cases he : idx = ths.length
+    · subst he
+      simp only [Nat.sub_self, List.getElem?_cons_zero, Option.some.injEq] at h
+      subst h
+      simp [foldCmp, threshold]
+    · have hidx : idx < ths.length := by omega
+      have hs : ths.length - idx = (ths.length - (idx + 1)) + 1 := by omega
+      rw [hs, List.getElem?_cons_succ] at h
+      cases x with
+      | none => simpa [foldCmp] using ih (idx + 1) acc v (by omega) h
+      | some w =>
+        simp only [foldCmp, threshold_lt fmax ths idx hidx]
+        exact ih (idx + 1) _ v (by omega) h
+end TV.Split
